@@ -307,8 +307,9 @@ func (hs *clientHandshakeState) handshake() error {
 
 func (hs *clientHandshakeState) pickTLSVersion() error {
 	vers, ok := hs.c.config.mutualVersion(hs.serverHello.vers)
-	if !ok || vers < VersionTLS10 {
-		// TLS 1.0 is the minimum version supported as a client.
+	if !ok || vers < VersionTLS10 || vers != hs.serverHello.vers {
+		// TLS 1.0 is the minimum version supported as a client, and the
+		// server must not select a version above the one we offered.
 		hs.c.sendAlert(alertProtocolVersion)
 		return fmt.Errorf("tls: server selected unsupported protocol version %x", hs.serverHello.vers)
 	}
